@@ -16,6 +16,8 @@ def run(R):
     R.lean(["C19", "C19Main"])
     import hunted
     hunted.run(R, "C19")
+    import inventory
+    inventory.check_options(R)   # structural tie: the option fields the C++ driver consults = those the model consults
     quick = R.tier == "quick"
     rng = R.rng
     reqs, meta, opts = ties.t7_requests(rng, quick)
